@@ -201,7 +201,17 @@ Definition h_set_len (h : handle) (size : N) : HM unit := fun s =>
   | (s1, Ok h1) =>
     match resize (h_id h1) size s1 with
     | (s2, Ok _) => (s2, (mkHandle (h_id h1) size (buf_clear (h_buf h1)) np (h_dirty h1), Ok tt))
-    | (s2, r) => (s2, (h1, match r with Ok _ => Panic 0 | Err k => Err k | Panic p => Panic p | OutOfFuel => OutOfFuel end))
+    | (s2, r) =>
+      (* the resize may have been partly applied: the handle re-reads the length the
+         directory entry now records, keeps its position (clamped) and empties its buffer *)
+      let r' := match r with Ok _ => Panic 0 | Err k => Err k | Panic p => Panic p | OutOfFuel => OutOfFuel end in
+      match stream_len (h_id h1) s2 with
+      | (s3, Ok len) =>
+        (s3, (mkHandle (h_id h1) len (buf_clear (h_buf h1)) (N.min (h_position h) len) (h_dirty h1), r'))
+      | (s3, Err k) => (s3, (h1, Err k))
+      | (s3, Panic p) => (s3, (h1, Panic p))
+      | (s3, OutOfFuel) => (s3, (h1, OutOfFuel))
+      end
     end
   | (s1, r) => (s1, (h, match r with Ok _ => Panic 0 | Err k => Err k | Panic p => Panic p | OutOfFuel => OutOfFuel end))
   end.
